@@ -44,6 +44,68 @@ def build(harness, profile):
     return r.returncode == 0, os.path.join(TARGET, pdir, f"zkmon-{harness}"), r.stdout[-3000:], time.time() - t0
 
 
+SANITIZERS = {
+    "asan": {"rustflags": "-Zsanitizer=address -Cforce-frame-pointers=yes", "cargo": [], "env": {"ASAN_OPTIONS": "halt_on_error=1:abort_on_error=0:detect_leaks=1"},
+             "marker": "ERROR: AddressSanitizer"},
+    "tsan": {"rustflags": "-Zsanitizer=thread", "cargo": ["-Zbuild-std"], "env": {"TSAN_OPTIONS": "halt_on_error=0:exitcode=66"},
+             "marker": "WARNING: ThreadSanitizer"},
+}
+
+
+def sanitizer_pass(pid, kind, seed):
+    """Secondary layer (thorough tier): rebuild the BBS harness + /repo under a compiler sanitizer (nightly) and run the
+    property's quick workload under it. Returns (status, detail, violations)."""
+    import re
+    cfg = SANITIZERS[kind]
+    hdir = os.path.join(VERIF, "harness", "bbs")
+    tdir = os.path.join(TARGET, kind)
+    e = env_for("bbs")
+    e["RUSTFLAGS"] = cfg["rustflags"]
+    e["CARGO_TARGET_DIR"] = tdir
+    cmd = ["cargo", "+nightly", "build", "--offline", "--release", "--target", "x86_64-unknown-linux-gnu"] + cfg["cargo"]
+    t0 = time.time()
+    r = subprocess.run(cmd, cwd=hdir, env=e, stdout=subprocess.PIPE, stderr=subprocess.STDOUT, text=True)
+    with open(os.path.join(VERIF, "logs", f"build-bbs-{kind}.log"), "w") as f:
+        f.write(r.stdout)
+    if r.returncode != 0:
+        return "inconclusive", f"{kind} build failed (see logs/build-bbs-{kind}.log)", []
+    binary = os.path.join(tdir, "x86_64-unknown-linux-gnu", "release", "zkmon-bbs")
+    out = os.path.join(VERIF, "logs", f"{pid}.{kind}.result.json")
+    errp = os.path.join(VERIF, "logs", f"{pid}.{kind}.stderr")
+    e2 = env_for("bbs")
+    e2.update(cfg["env"])
+    if os.path.exists(out):
+        os.remove(out)
+    try:
+        with open(errp, "w") as ef:
+            rr = subprocess.run([binary, pid, "--tier", "quick", "--seed", str(seed), "--out", out, "--repo", REPO],
+                                cwd=VERIF, env=e2, stdout=subprocess.PIPE, stderr=ef, text=True, timeout=3600)
+    except subprocess.TimeoutExpired:
+        return "inconclusive", f"{kind} run exceeded the watchdog", []
+    txt = open(errp, errors="replace").read()
+    blocks = txt.split(cfg["marker"])[1:]
+    viols, seen = [], set()
+    for b in blocks:
+        m = re.search(r"(/repo/src/[^\s:]+):(\d+)", b)
+        frame = m.group(1) if m else "no-in-repo-frame"
+        toks = b.strip().lstrip(":").split()
+        kindname = toks[0].rstrip(":") if toks else "report"
+        sig = f"{pid}:{kind}:{kindname}@{frame}"
+        if sig not in seen:
+            seen.add(sig)
+            viols.append({"signature": sig, "scenario": None, "detail": {"report": (cfg["marker"] + b)[:3000], "stderr_log": errp}})
+    events = None
+    if os.path.exists(out):
+        try:
+            events = json.load(open(out)).get("events")
+        except Exception:
+            pass
+    if not viols and rr.returncode != 0:
+        return "inconclusive", f"{kind} run exited {rr.returncode} without a sanitizer report", []
+    return ("violated" if viols else "silent"), {"reports": len(blocks), "events_under_sanitizer": events,
+                                                "build_s": round(time.time() - t0, 1)}, viols
+
+
 def load_known():
     p = os.path.join(VERIF, "KNOWN_FINDINGS.json")
     if not os.path.exists(p):
@@ -165,6 +227,15 @@ def main(argv):
     post = getattr(P, "post_" + pid, None)
     if post:
         post(sys.modules[__name__], res, binary, tier, seed)
+
+    san_note = None
+    if tier == "thorough" and not replay and meta.get("sanitizer"):
+        st, detail, sv = sanitizer_pass(pid, meta["sanitizer"], seed)
+        res.setdefault("extra", {})["sanitizer_layer"] = {"tool": meta["sanitizer"], "status": st, "detail": detail}
+        res.setdefault("violations", []).extend(sv)
+        if st == "inconclusive":
+            san_note = f"sanitizer layer ({meta['sanitizer']}) inconclusive: {detail} - the monitor verdict stands alone"
+            print("NOTE " + san_note)
 
     known = load_known()
     viols = res.get("violations", [])
